@@ -38,7 +38,13 @@ var memPool = []mty{
 var memFloat = mty{"float64", []string{"0.0", "negZero()", "1.5", "2.5"}, true}
 var memFloatSlice = mty{"[]float64", []string{"[]float64{0}", "[]float64{negZero()}", "[]float64{1.5}"}, false}
 
+// results may be zero / nil values: a memoised nil must stay memoised
 var memResults = []struct{ Go, Mk string }{
+	{"[]int", "func() []int {\n\t\tif (h+SALT)%2 == 0 {\n\t\t\treturn nil\n\t\t}\n\t\treturn []int{int(h % 7)}\n\t}()"},
+	{"*S", "func() *S {\n\t\tif (h+SALT)%2 == 0 {\n\t\t\treturn nil\n\t\t}\n\t\treturn &S{A: int(h % 13)}\n\t}()"},
+	{"error", "func() error {\n\t\tif (h+SALT)%2 == 0 {\n\t\t\treturn nil\n\t\t}\n\t\treturn errA\n\t}()"},
+	{"map[string]int", "func() map[string]int {\n\t\tif (h+SALT)%2 == 0 {\n\t\t\treturn nil\n\t\t}\n\t\treturn map[string]int{\"k\": int(h % 5)}\n\t}()"},
+	{"int", "int((h + SALT) % 2)"},
 	{"int", "int(h % 1000)"},
 	{"string", "fmt.Sprint(\"r\", h%97)"},
 	{"[]int", "[]int{int(h % 7), 1}"},
@@ -146,6 +152,7 @@ var _ = math.Pi
 	}
 	fmt.Fprintf(&sb, "\nfunc Run() *seqrt.Result {\n\tres := &seqrt.Result{Shape: %q}\n%s\tres.Calls = calls\n\treturn res\n}\n", name, hist.String())
 	src := strings.Replace(sb.String(), "\t\"fmt\"\n", "\t\"fmt\"\n\t\"math\"\n", 1)
+	src = strings.ReplaceAll(src, "SALT", fmt.Sprint(t.Intn(2)))
 	sig := "func(" + strings.Join(func() []string {
 		o := make([]string, np)
 		for i, p := range ps {
